@@ -8,6 +8,9 @@ NamePoolDef == {"n1", "n1:1", NONE}
 IdPoolDef == {NoId, 0, -1, 2}
 IdPoolSmall == {NoId, 0}
 IdPoolNone == {NoId}
+\* files: every entry states its id and its name; names repeat, ids come in any order (0, negative, gaps)
+IdPoolFile == {0, -1, 2, 5}
+NamePoolFile == {"n1", "n1:2", "n1:2:5"}
 DefValsGraph == {0, 5, 10}
 \* VERIF_READD=1: objects the caller got back (removed / rejected) may be handed in again
 ReAddEnv == EnvOr("VERIF_READD", "0") = "1"
